@@ -989,6 +989,10 @@ func main() {
 	// --- HTTP surface: per-handler error mapping, decode classes, cache source text, more struct tags (agent "wire", C20) ---
 	emitWireFacts(w, repo, mintP, cashuP, cryptoP, nut04P, nut05P, nut07P)
 
+	// --- the Lightning backend clients: bodies of the lightning.Client methods of the real backends (frozen: the
+	// models treat the backend as an oracle, so what the clients tell the mint about a node's answers is pinned here) ---
+	emitLnClientFacts(w, lnP)
+
 	w("\nend Gonuts.Gen\n")
 
 	if outPath == "" {
@@ -2040,4 +2044,13 @@ func emitWireFacts(w func(string, ...any), repo string, mintP, cashuP, cryptoP, 
 	emitFields("fields_Supported", structFields(nut06P, "Supported"))
 	emitFields("fields_Nut19Setting", structFields(nut06P, "Nut19Setting"))
 	emitFields("fields_CachedEndpoint", structFields(nut06P, "CachedEndpoint"))
+}
+
+func emitLnClientFacts(w func(string, ...any), lnP *pkg) {
+	w("\n/-! ## Lightning clients (mint/lightning/lnd.go, cln.go): bodies of the lightning.Client methods (go/printer, comments stripped) -/\n")
+	for _, c := range []struct{ recv, tag string }{{"LndClient", "lnd"}, {"CLNClient", "cln"}} {
+		for _, fn := range []string{"CreateInvoice", "InvoiceStatus", "SendPayment", "PayPartialAmount", "OutgoingPaymentStatus", "FeeReserve"} {
+			w("def src_%s_%s : List String := %s\n", c.tag, fn, leanStrList(bodyLines(findFunc(lnP, c.recv, fn))))
+		}
+	}
 }
